@@ -38,6 +38,7 @@ typedef struct {
 } alg_t;
 extern const alg_t ALGS[];
 extern const int NALGS;
+extern int algs_threaded; /* set by drivers that run managers on several threads */
 int alg_id(const char *name); /* DIE if unknown */
 
 /* derived key material for one raw key on one manager/variant */
